@@ -4,6 +4,7 @@ by the trace specification."""
 import hashlib
 import os
 import random
+import re
 
 import names
 import observe
@@ -104,7 +105,8 @@ def run_case(pid, cid, case, tier, seed):
     case = dict(case, _cid=cid)
     for k, nm in namings_for(pid, tier, seed, cid):
         events, extra = spec['script'](case, nm, tier, seed)
-        out.append(mk_trace(pid, cid, k, case, nm, events, extra))
+        if events:
+            out.append(mk_trace(pid, cid, k, case, nm, events, extra))
     return out
 
 
@@ -515,10 +517,20 @@ def pick_pool(cases, wanted_tags, size):
     return pool
 
 
+def _nary(t):
+    if t.get('op') in (None, 'NIL', 'VAR', 'INT', 'NUM', 'STR'):
+        return False
+    if t['op'] in ('AND', 'OR') and (t['l'].get('op') == t['op'] or t['r'].get('op') == t['op']):
+        return True
+    return _nary(t['l']) or _nary(t['r'])
+
+
 def ctc_tags(c):
     tags = set()
     for k in c['model']['ctcs']:
         ast_tags(k['ast'], tags)
+        if _nary(k['ast']):
+            tags.add('nary')
     for f in c['model']['feats']:
         for a in f['attrs']:
             tags.add('attrval:' + a['val'].split(':')[0])
@@ -559,3 +571,130 @@ prop('C04', ['uvl-Type', 'uvl-FCard', 'uvl-Attr', 'uvl-Star', 'uvl-Abs', 'Ref-uv
                   '(a dependency) rejects them', 'sub-expressions are always parenthesised, so the oracle never '
                   'depends on operator precedence'],
      trusted=['harness/emit_ref.py (reference emitter)'])(readref_script('uvl'))
+
+
+REF_FORMATS = {
+    'fide': dict(surface='Surface-fide', sources=['fide-Tree', 'fide-Ctc', 'fide-Abs', 'Ref-fide-Ctc3'], size=10,
+                 wanted=['mandatory', 'optional', 'or', 'alternative', 'abstract', 'multi-rel-parent', 'nary', 'op:NOT', 'op:AND',
+                         'op:OR', 'op:IMPLIES', 'op:EQUIVALENCE', 'op:REQUIRES', 'op:EXCLUDES'],
+                 ok=lambda m: True),
+    'xml': dict(surface='Surface-xml', sources=['Ref-xml', 'Tree'], size=10,
+                wanted=['mandatory', 'optional', 'or', 'alternative', 'mutex', 'cardinality', 'card1', 'multi-rel-parent',
+                        'op:REQUIRES', 'op:EXCLUDES'],
+                ok=lambda m: all(c['ast']['op'] in ('REQUIRES', 'EXCLUDES') and c['ast']['l']['op'] == 'VAR'
+                                 and c['ast']['r']['op'] == 'VAR' for c in m['ctcs'])
+                and len({c['name'] for c in m['ctcs']}) == len(m['ctcs'])),
+    'afm': dict(surface='Surface-afm', sources=['Ref-afm-Mix', 'afm-Ctc2'], size=10,
+                wanted=['mandatory', 'optional', 'or', 'alternative', 'mutex', 'cardinality', 'multi-rel-parent', 'attr',
+                        'op:NOT', 'op:AND', 'op:OR', 'op:IMPLIES', 'op:EQUIVALENCE', 'op:REQUIRES', 'op:EXCLUDES'],
+                ok=lambda m: True),
+    'glencoe': dict(surface='Surface-glencoe', sources=['Ref-glencoe-Ctc', 'glencoe-Tree'], size=10,
+                    wanted=['mandatory', 'optional', 'or', 'alternative', 'mutex', 'cardinality', 'op:NOT', 'op:AND', 'op:OR',
+                            'op:XOR', 'op:IMPLIES', 'op:EQUIVALENCE', 'op:REQUIRES', 'op:EXCLUDES'],
+                    ok=lambda m: len({c['name'] for c in m['ctcs']}) == len(m['ctcs'])),
+}
+CORPUS_DIRS = ['/repo/resources/models/fama_test_suite', '/repo/resources/models/simple',
+               '/repo/resources/models/synthetic/simple_betty_gen_models']
+FULL_BOUND = {'quick': 100, 'thorough': 1000}
+
+
+def corpus_files(tier, seed):
+    files = []
+    for d in CORPUS_DIRS:
+        for root, _, fs in sorted(os.walk(d)):
+            for f in sorted(fs):
+                if f.endswith('.xml'):
+                    files.append(os.path.join(root, f))
+    if tier == 'quick':      # every small file; a seeded fifth of the files above the full-judgement bound
+        rnd = random.Random(seed)
+        keep = []
+        for f in files:
+            m = re.search(r'simple_betty_gen_models/(\d+)/', f)
+            if m and int(m.group(1)) > FULL_BOUND['quick'] and rnd.random() > 0.2:
+                continue
+            keep.append(f)
+        files = keep
+    return files
+
+
+def prepare_c09(cases, tier, seed):
+    out = []
+    for fmt, spec in REF_FORMATS.items():
+        src = [(cid, c) for cid, c in cases if cid.rsplit('-', 1)[0] in spec['sources'] and spec['ok'](c['model'])]
+        pool = pick_pool(src, spec['wanted'], spec['size'])
+        for cid, c in cases:
+            if cid.rsplit('-', 1)[0] != spec['surface']:
+                continue
+            m = pool[c['model'] - 1]
+            out.append((cid, {'fmt': fmt, 'hist': m['hist'], 'model': m['model'], 'ch': c['ch'], 'broken': c['broken'],
+                              'poolidx': c['model']}))
+    for i, f in enumerate(corpus_files(tier, seed)):
+        out.append(('Corpus-%05d' % i, {'corpus': f, 'tags': ['corpus']}))
+    return out
+
+
+@prop('C09', sorted({s for v in REF_FORMATS.values() for s in v['sources'] + [v['surface']]}),
+      name_classes=('space', 'nonascii'), naming_matters=True, prepare=prepare_c09,
+      assumptions=['the four reference emitters (harness/emit_ref.py) are trusted; the Glencoe emitter is limited to syntactic '
+                   'freedom because no definition of the format other than this library is available offline',
+                   'corpus files above the size bound are judged on the twelve summary numbers only (counted by the harness, '
+                   'whose counting is validated against the specification on every smaller file of the same run)'],
+      trusted=['harness/emit_ref.py', 'harness/formats.py: parse_statistics, summarize'])
+def script_c09(case, naming, tier, seed):
+    if 'corpus' in case:
+        if naming.classes != ('plain',):
+            return [], None
+        ev, _ = formats.corpus_event(case['corpus'], None, FULL_BOUND[tier])
+        return [ev], {'key': case['corpus'], 'nontrivial': True}
+    if case['fmt'] == 'afm' and naming.classes != ('plain',):
+        return [], None
+    nm = naming if case['fmt'] != 'afm' else names.Naming(('afmword',), 0, naming.seed)
+    ev, text = formats.readref_event(case['fmt'], case['model'], nm, case['ch'], case['broken'])
+    return [ev], {'key': [case['fmt'], case['poolidx'], case['ch'], case['broken']], 'nontrivial': True}
+
+
+# ---------------------------------------------------------------------------
+# Every reader, every kind of source (C02)
+RT_FORMATS = ['uvl', 'json', 'afm', 'fide', 'glencoe']
+C02_FAMILIES = sorted(set([f + '-Tree' for f in RT_FORMATS] + [f + '-Ctc' for f in RT_FORMATS] + ['afm-Attr', 'uvl-Attr', 'json-Attr']
+                          + PROPS['C09']['families'] + PROPS['C04']['families']))
+
+
+def prepare_c02(cases, tier, seed):
+    out = []
+    rnd = random.Random(seed)
+    cap = 700 if tier == 'quick' else 6000
+    for fmt in RT_FORMATS:
+        mine = [(cid, c) for cid, c in cases if cid.rsplit('-', 1)[0] in (fmt + '-Tree', fmt + '-Ctc', fmt + '-Attr')]
+        if len(mine) > cap:
+            mine = [mine[i] for i in sorted(rnd.sample(range(len(mine)), cap))]
+        out += [(cid, dict(c, rt=fmt)) for cid, c in mine]
+    c04 = set(PROPS['C04']['families'])
+    out += [(cid, dict(c, fmt='uvl')) for cid, c in
+            prepare_surface(UVL_WANTED, 12)([(cid, c) for cid, c in cases if cid.rsplit('-', 1)[0] in c04], tier, seed)]
+    out += prepare_c09(cases, tier, seed)
+    return out
+
+
+@prop('C02', C02_FAMILIES, name_classes=('space', 'nonascii'), naming_matters=True, prepare=prepare_c02,
+      name_stride={'quick': 6, 'thorough': 3},
+      assumptions=['corpus files above the size bound are not judged for well-formedness (TLC cannot ingest them at useful speed)'],
+      trusted=['harness/emit_ref.py'])
+def script_c02(case, naming, tier, seed):
+    if 'rt' in case:
+        fmt = case['rt']
+        nm = naming
+        if fmt == 'afm':
+            if naming.classes != ('plain',):
+                return [], None
+            nm = names.Naming(('afmword',), 0, naming.seed)
+        b, ev = load_event(case, nm)
+        wev, path, _ = formats.write_event(fmt, b.model, nm)
+        events = [ev, wev]
+        if wev['out'] == 'value':
+            rev, _ = formats.read_event(fmt, path, nm)
+            events.append(rev)
+        if os.path.exists(path):
+            os.remove(path)
+        return events, {'key': ['rt', fmt], 'nontrivial': True}
+    return script_c09(case, naming, tier, seed)
